@@ -16,7 +16,10 @@ import (
 	"c4emc/explore"
 	"c4emc/harness"
 
+	dtypes "github.com/chain4energy/c4e-chain/x/cfedistributor/types"
+	vtypes "github.com/chain4energy/c4e-chain/x/cfevesting/types"
 	sdk "github.com/cosmos/cosmos-sdk/types"
+	banktypes "github.com/cosmos/cosmos-sdk/x/bank/types"
 )
 
 func init() { Register(&Check{ID: "C11", Level: "model_checking", Run: runC11}) }
@@ -42,6 +45,31 @@ func c11Scenario(name string) *Scenario {
 		return &Scenario{Name: name, Genesis: harness.BuildGenesis(harness.Genesis{Balances: map[string]sdk.Coins{"sigA": coins(5), "sigB": coins(5)}}), T0: harness.T0, Events: c15Events(loadSigFixtures())}
 	case "c17":
 		return &Scenario{Name: name, Genesis: harness.BuildGenesis(c17Genesis()), T0: harness.T0, Events: c17Events(false)}
+	case "c11dist":
+		// several bank-backed sources per sub-distributor (two of them module accounts that are only
+		// created lazily), several destinations, two denominations: every collection the distributor
+		// walks has >= 2 elements, so an order-dependent walk shows in events or account numbers
+		g := c13Genesis()
+		g.Balances = map[string]sdk.Coins{"A": sdk.NewCoins(sdk.NewInt64Coin(harness.Denom, 500), sdk.NewInt64Coin(denomB, 50)), "U1": sdk.NewCoins(sdk.NewInt64Coin(harness.Denom, 50), sdk.NewInt64Coin(denomB, 7)), "U2": coins(0)}
+		src := func(a dacc) *dtypes.Account { return &dtypes.Account{Id: a.ID, Type: a.Type} }
+		g.Distr = &dtypes.GenesisState{Params: dtypes.Params{SubDistributors: []dtypes.SubDistributor{
+			{Name: "collect", Sources: []*dtypes.Account{src(aMfee), src(aMgeb), src(dacc{dtypes.ModuleAccount, dtypes.GovernanceBoosterCollector}), src(aU("U1"))},
+				Destinations: dtypes.Destinations{PrimaryShare: dAcc(aI1), BurnShare: sdk.MustNewDecFromStr("0.1"),
+					Shares: []*dtypes.DestinationShare{{Name: "dev", Share: sdk.MustNewDecFromStr("0.3"), Destination: dAcc(aU("U2"))}, {Name: "val", Share: sdk.MustNewDecFromStr("0.2"), Destination: dAcc(aVRC)}}}},
+			{Name: "main", Sources: []*dtypes.Account{src(aI1), src(aMAIN)},
+				Destinations: dtypes.Destinations{PrimaryShare: dAcc(aVRC), BurnShare: sdk.ZeroDec(),
+					Shares: []*dtypes.DestinationShare{{Name: "boost", Share: sdk.MustNewDecFromStr("0.2"), Destination: dAcc(aU("U2"))}}}},
+		}}}
+		evs := []Ev{{Name: "block+1s", Block: time.Second}, {Name: "block+40s", Block: 40 * time.Second},
+			{Name: "tx-with-fee(A,7)", Fee: coins(7), Build: func(v View) (sdk.Msg, string) { return vtypes.NewMsgWithdrawAllAvailable(harness.AddrS("A")), "A" }},
+			{Name: "banksend(A->U1,11uc4e+3ubb)", Build: func(v View) (sdk.Msg, string) {
+				return banktypes.NewMsgSend(harness.Addr("A"), harness.Addr("U1"), sdk.NewCoins(sdk.NewInt64Coin(harness.Denom, 11), sdk.NewInt64Coin(denomB, 3))), "A"
+			}},
+			{Name: "pool(A,p,10)", Build: func(v View) (sdk.Msg, string) {
+				return vtypes.NewMsgCreateVestingPool(harness.AddrS("A"), "p", sdk.NewInt(10), 5*time.Second, "t5"), "A"
+			}},
+		}
+		return &Scenario{Name: name, Genesis: harness.BuildGenesis(g), T0: harness.T0, Events: evs}
 	}
 	return nil
 }
@@ -125,10 +153,10 @@ func ReplicaMain(jobFile, outFile string, only int) int {
 }
 
 func runC11(rc *RunCtx) {
-	replicas, depth := 2, map[string]int{"c01": 3, "c05": 3, "c10": 3, "c13": 2, "c15": 3, "c17": 3}
+	replicas, depth := 2, map[string]int{"c01": 3, "c05": 3, "c10": 3, "c13": 2, "c15": 3, "c17": 3, "c11dist": 4}
 	if rc.Thorough() {
 		replicas = 4
-		depth = map[string]int{"c01": 4, "c05": 4, "c10": 4, "c13": 3, "c15": 4, "c17": 4}
+		depth = map[string]int{"c01": 4, "c05": 4, "c10": 4, "c13": 3, "c15": 4, "c17": 4, "c11dist": 6}
 	}
 	self, err := os.Executable()
 	if err != nil {
@@ -139,7 +167,7 @@ func runC11(rc *RunCtx) {
 	cov := map[string]interface{}{}
 	totalTraces, totalSteps, states, transitions := 0, 0, 0, 0
 	var samples []interface{}
-	names11 := []string{"c01", "c05", "c10", "c13", "c15", "c17"}
+	names11 := []string{"c11dist", "c01", "c05", "c10", "c13", "c15", "c17"}
 	for _, name := range names11 {
 		scn := c11Scenario(name)
 		sys := scnSystem{scn}
